@@ -618,6 +618,9 @@ func explore(cfg *config) int {
 		extraFailures = append(extraFailures, f...)
 		infra = append(infra, inf...)
 		extra["cross_process_history_oracle"] = st
+		if why, ok := st["history_oracle_inconclusive"]; ok {
+			fmt.Printf("WARNING: cross-process history oracle gave no verdict on this tree (a logged run was %v)\n", why)
+		}
 	}
 	{
 		// On the unchanged tree the simulator is deterministic (proved on a large
